@@ -130,6 +130,11 @@ def rtdc_copy(src_h5file: h5py.Group,
                               dst_h5file=dst_h5file,
                               features_iter=feature_iter)
 
+    if "events" in src_h5file and features != "none":
+        # Always create the events group if the source has one, also when
+        # it is empty (e.g. basin-only files), so dclab can open the copy.
+        dst_h5file.require_group("events")
+
     if feature_iter:
         dst_h5file.require_group("events")
         for feat in feature_iter:
@@ -148,6 +153,11 @@ def rtdc_copy(src_h5file: h5py.Group,
                                 src_name=feat,
                                 dst_loc=dst_h5file["events"],
                                 recursive=True)
+                if dst is None or (isinstance(dst, h5py.Dataset)
+                                   and dst.shape[0] == 0):
+                    # empty dataset: nothing was copied or there is
+                    # nothing to summarize
+                    continue
                 if scalar_feature_exists(feat):
                     # complement min/max values for all scalar features
                     for ufunc, attr in [(np.nanmin, "min"),
